@@ -139,6 +139,33 @@ def external_parameter_checks(ctx):
             ctx.check(f"external parameter {nm} read after {start} earlier reads", got == [[nm, nm]], str([nm, nm]), str(got), fn_where(idx, fi))
 
 
+def single_initialisation_per_class(ctx):
+    """every operation class prints its declaration at most once (the per-statement layout asks every operation below a statement for
+    it, so an operation that several statements reach is asked several times): the class's own il_init_var, wherever it is defined"""
+    idx = get_index(ctx.env)
+
+    def hook(interp, callee, args, kwargs, text):
+        from sa.absint import BoundMethod
+        if isinstance(callee, BoundMethod) and callee.finfo.name in ("il_exec", "il_write", "il_read") and callee.obj is not None and callee.obj.label == "self":
+            return Opaque(f"{callee.finfo.name}()")
+        return NotImplemented
+    classes = sorted(c for c in idx.subclasses("PureExec") if c in idx.classes and "Hybrid" not in idx.mro(c))
+    ctx.need(len(classes) >= 8, f"operation classes: only {len(classes)} found")
+    for c in classes:
+        fi = idx.resolve_method(c, "il_init_var")
+        if fi is None:
+            continue
+        for inlined in (False, True):
+            mk = lambda c=c, inlined=inlined: AObj(c, {"inlined": inlined, "init_counter": 0, "lets": [], "name": "op_3", "isa_name": None, "ops": [], "reads": 0}, label="self")
+            try:
+                outs, _ = seq_calls(idx, fi, mk, 3, hook)
+                got = [[normalise(to_text(x)) for x in o.value] if o.kind == "return" else outcome_text(o) for o in outs]
+            except Exception as e:
+                got = [f"not evaluable: {type(e).__name__}: {e}"]
+            ok = len(got) == 1 and isinstance(got[0], list) and len(got[0]) == 3 and got[0][1] == "" and got[0][2] == "" and (got[0][0] == "" or (not inlined and got[0][0].startswith("RzILOpPure *op_3 = ")))
+            ctx.check(f"{c}.il_init_var x3 [{'inlined' if inlined else 'own variable'}]", ok, "'' when inlined; otherwise the declaration at most once, then ''", str(got)[:140], fn_where(idx, fi), nontrivial=(fi.cls == c))
+
+
 @rule("R12.2", "C12", "single initialisation: a PureExec / Hybrid prints its initialiser at most once", min_instances=3)
 def r12_2(ctx):
     idx = get_index(ctx.env)
@@ -155,6 +182,7 @@ def r12_2(ctx):
     outs, _ = seq_calls(idx, fi, lambda: AObj("Hybrid", {"effect_init_count": 0, "name": "c_call_4"}, label="self"), 3, hook)
     got = [[normalise(to_text(x)) for x in o.value] if o.kind == "return" else outcome_text(o) for o in outs]
     ctx.check("Hybrid.il_init_var x3", got == [["RzILOpEffect *c_call_4 = <il_write()>;", "", ""]], "initialiser once, then ''", str(got), fn_where(idx, fi))
+    single_initialisation_per_class(ctx)
     # Register.il_init_var is reached only from the READ block
     callers = sorted({fi2.qual for fi2 in idx.funcs.values() for n in ast.walk(fi2.node) if isinstance(n, ast.Call) and call_tail(n) == "il_init_var" and fi2.cls == "RZILTransformer"})
     exp = ["RZILTransformer.emit_exec_block", "RZILTransformer.emit_final_seq_return", "RZILTransformer.emit_read_block", "RZILTransformer.emit_stmt_blocks", "RZILTransformer.emit_write_block"]
